@@ -200,6 +200,8 @@ pub struct Shared {
     pub name: String,
     pub port: u16,
     garbage: Garbage,
+    /// error code of every scripted application-error reply (0: alternate 4096 / 6)
+    err_code: u32,
     listener: TcpListener,
     st: Mutex<St>,
     cv: Condvar,
@@ -257,7 +259,7 @@ pub unsafe extern "C" fn connect(
 /// True when the interposer really sits in front of `std::net`/`tokio` connects
 /// (checked once per run with a probe node; a vacuous seam is a machinery error).
 pub fn seam_works() -> Result<(), String> {
-    let node = FakeNode::start("probe", vec![], Garbage::BadSpec)?;
+    let node = FakeNode::start("probe", vec![], Garbage::BadSpec, 0)?;
     let before = node.sh.lock().connects_seen;
     let c = TcpStream::connect(("127.0.0.1", node.sh.port)).map_err(|e| e.to_string())?;
     drop(c);
@@ -426,7 +428,12 @@ impl Shared {
             Out::AcceptClose => Realized::Reset,
             Out::Silent => Realized::Silent,
             Out::Malformed => Realized::Garbage,
-            Out::AppErr => Realized::ReplyErr { code: if serial % 2 == 0 { 4096 } else { 6 } },
+            Out::AppErr => Realized::ReplyErr {
+                code: match self.err_code {
+                    0 => if serial % 2 == 0 { 4096 } else { 6 },
+                    c => c,
+                },
+            },
             Out::Success | Out::IdleClose => Realized::ReplyOk,
         };
         let n = st.conn_requests.entry(conn).or_insert(0);
@@ -662,12 +669,13 @@ fn accept_loop(sh: Arc<Shared>) {
 }
 
 impl FakeNode {
-    pub fn start(name: &str, script: Vec<Out>, garbage: Garbage) -> Result<FakeNode, String> {
+    pub fn start(name: &str, script: Vec<Out>, garbage: Garbage, err_code: u32) -> Result<FakeNode, String> {
         let (listener, port) = new_bound_socket()?;
         let sh = Arc::new(Shared {
             name: name.to_string(),
             port,
             garbage,
+            err_code,
             listener,
             st: Mutex::new(St {
                 script: script.into(),
